@@ -343,6 +343,8 @@ pub enum NameOp {
     ExecMut,
     Delete,
     Remove,
+    /// admin rename that transfers the database to the other user (same name or `other`)
+    Transfer(bool),
 }
 
 #[derive(Clone, Debug, Serialize, Deserialize)]
@@ -448,6 +450,9 @@ fn c26_case(c: &NameCase) -> CaseResult {
     let mut ci = CaseInfo::default();
     let mut any_2xx = false;
     let mut any_fs_change = false;
+    let mut orphan_checks = 0u64;
+    // databases detached with `remove`: the endpoint is documented to keep their files
+    let mut kept_files: BTreeSet<String> = BTreeSet::new();
     let mut trace = vec![];
     let protected: Vec<String> = {
         // files of the plain databases that no other database may touch
@@ -471,8 +476,10 @@ fn c26_case(c: &NameCase) -> CaseResult {
             ),
             NameOp::Delete => ("DELETE", format!("/api/v1/db/{u1}/{wire}/delete"), None),
             NameOp::Remove => ("DELETE", format!("/api/v1/db/{u1}/{wire}/remove"), None),
+            NameOp::Transfer(keep_name) => ("POST", format!("/api/v1/admin/db/{u1}/{wire}/rename?new_owner={u2}&new_db={}", pct(if *keep_name { &decoded } else { &odecoded })), None),
         };
-        let r = s.call(method, &path, Some(&t1), body.as_ref());
+        let tok = if matches!(op, NameOp::Transfer(_)) { s.admin_token.clone() } else { t1.clone() };
+        let r = s.call(method, &path, Some(&tok), body.as_ref());
         let after = manifest(&s.root);
         trace.push(format!("{method} {path} -> {}", r.status));
         if r.ok() {
@@ -490,9 +497,10 @@ fn c26_case(c: &NameCase) -> CaseResult {
                 continue;
             }
             any_fs_change = true;
-            let name_for_sig = if matches!(op, NameOp::Copy | NameOp::Rename) { &odecoded } else { &decoded };
+            let name_for_sig = if matches!(op, NameOp::Copy | NameOp::Rename | NameOp::Transfer(false)) { &odecoded } else { &decoded };
             let class = name_class(name_for_sig);
-            if !k.starts_with(&own_prefix) && *k != format!("{data_rel}/{u1}/") {
+            let transfer_target = matches!(op, NameOp::Transfer(_)) && (k.starts_with(&format!("{data_rel}/{u2}/")) && !protected.contains(k));
+            if !k.starts_with(&own_prefix) && *k != format!("{data_rel}/{u1}/") && !transfer_target {
                 let whose = if k.starts_with(&format!("{data_rel}/{u2}/")) { "another user's directory" } else if k.starts_with(&format!("{data_rel}/")) { "the data directory outside the owner's directory" } else { "a path outside the data directory" };
                 return Err(Fail::new(
                     confinement_sig(class, &format!("database file outside the owner's directory: {whose}")),
@@ -510,6 +518,46 @@ fn c26_case(c: &NameCase) -> CaseResult {
                 ));
             }
         }
+        // state invariant (plain names only, where a file name identifies its database): every
+        // file under an owner's directory belongs to a database that owner currently has - a
+        // file left behind by a rename, transfer or delete would later be adopted by another
+        // database of the same name
+        if matches!(op, NameOp::Remove) && r.ok() {
+            kept_files.insert(decoded.clone());
+        }
+        if name_class(&decoded) == "plain" && name_class(&odecoded) == "plain" && !decoded.contains('%') && !odecoded.contains('%') {
+            orphan_checks += 1;
+            for (user, token) in [(&u1, &t1), (&u2, &t2)] {
+                let lr = s.call("GET", "/api/v1/db/list", Some(token), None);
+                if lr.status != 200 {
+                    return Err(Fail::new("harness: db list failed", format!("{} {}", lr.status, lr.text())));
+                }
+                // databases this user owns (the list also holds databases shared with the user)
+                let dbs: BTreeSet<String> = lr.json().as_array().cloned().unwrap_or_default().iter().filter(|d| d["owner"].as_str() == Some(user.as_str())).filter_map(|d| d["db"].as_str().map(|x| x.to_string())).collect();
+                let prefix = format!("{data_rel}/{user}/");
+                for k in after.keys().filter(|k| k.starts_with(&prefix) && !k.ends_with('/')) {
+                    let rel = &k[prefix.len()..];
+                    let owner_db = if let Some(x) = rel.strip_prefix("backups/") {
+                        x.strip_suffix(".bak").or_else(|| x.strip_suffix(".log")).map(|x| x.to_string())
+                    } else if let Some(x) = rel.strip_prefix("audit/") {
+                        x.strip_suffix(".log").map(|x| x.to_string())
+                    } else if let Some(x) = rel.strip_prefix('.') {
+                        Some(x.to_string())
+                    } else {
+                        Some(rel.to_string())
+                    };
+                    match owner_db {
+                        Some(d) if dbs.contains(&d) || (user == &u1 && kept_files.contains(&d)) => {}
+                        _ => {
+                            return Err(Fail::new(
+                                format!("file left behind that belongs to no database of its directory's owner ({})", if rel.starts_with("backups/") { "backup" } else if rel.starts_with("audit/") { "audit" } else if rel.starts_with('.') { "recovery log" } else { "data file" }),
+                                format!("{k} exists but user {user} has databases {dbs:?}\n{}\nname {decoded:?} other {odecoded:?}", trace.join("\n")),
+                            ));
+                        }
+                    }
+                }
+            }
+        }
         if !r.ok() && changed.iter().any(|k| !is_server_file(k, &data_rel) && *k != format!("{data_rel}/")) {
             let name_for_sig = if matches!(op, NameOp::Copy | NameOp::Rename) { &odecoded } else { &decoded };
             return Err(Fail::new(
@@ -518,7 +566,8 @@ fn c26_case(c: &NameCase) -> CaseResult {
             ));
         }
     }
-    ci.nontrivial = (is_special(&decoded) || is_special(&odecoded)) && (any_2xx || any_fs_change);
+    ci.nontrivial = ((is_special(&decoded) || is_special(&odecoded)) && (any_2xx || any_fs_change)) || (orphan_checks > 0 && any_2xx);
+    ci.count("orphan-file checks (plain names)", orphan_checks);
     ci.label(format!("name class {}", name_class(&decoded)));
     if any_2xx {
         ci.label("a request was accepted");
@@ -576,6 +625,7 @@ fn name_case_with(plain_only: bool) -> impl Strategy<Value = NameCase> {
         2 => Just(NameOp::ExecMut),
         1 => Just(NameOp::Delete),
         1 => Just(NameOp::Remove),
+        2 => any::<bool>().prop_map(NameOp::Transfer),
     ];
     (prop::collection::vec(piece(), 1..4), prop::collection::vec(piece(), 1..4), prop::collection::vec(op, 2..7)).prop_map(|(name, other, mut ops)| {
         ops.insert(0, NameOp::Add(1));
@@ -588,7 +638,7 @@ fn name_case() -> impl Strategy<Value = NameCase> {
 }
 
 pub fn c26(ctx: &mut Ctx) {
-    ctx.rule = "database names built from 1-3 pieces of a grammar of path-like and special strings (separators / and \\, their percent-encoded and double-encoded forms, '.' and '..' segments, leading dots incl. the recovery-log name '.x' of an existing database 'x', the reserved directory names audit and backups and paths inside them, .bak / .log suffixes, blanks, control and non-ASCII characters), each piece sent raw or percent-encoded, used with add, copy (as new_db), rename (as new_db), backup, restore, clear, convert, exec_mut, delete and remove by one user while another user and the same user own a plain database 'x' with a backup. One fresh server per case, nested five levels below the scratch root. Oracle: a manifest (path, size, content hash) of the whole scratch root is taken before and after every request; every created, modified or deleted path (except the server's own bookkeeping files) must lie under data_dir/<owner>/; no file of database 'x' (main, recovery log, backup, audit) may be changed by a request on another name; a rejected request changes nothing. evaluations = requests. Non-trivial: the name contains a separator, dot segment, leading dot, reserved name or suffix and the server answered 2xx or changed the file system. Pass B repeats the campaign with names restricted to plain pieces (no separator, dot, reserved name or suffix), where every failure is a violation. Distinct = hash of the case.".into();
+    ctx.rule = "database names built from 1-3 pieces of a grammar of path-like and special strings (separators / and \\, their percent-encoded and double-encoded forms, '.' and '..' segments, leading dots incl. the recovery-log name '.x' of an existing database 'x', the reserved directory names audit and backups and paths inside them, .bak / .log suffixes, blanks, control and non-ASCII characters), each piece sent raw or percent-encoded, used with add, copy (as new_db), rename (as new_db), backup, restore, clear, convert, exec_mut, delete, remove and ownership transfer (admin rename to the other user) by one user while another user and the same user own a plain database 'x' with a backup. One fresh server per case, nested five levels below the scratch root. Oracle: a manifest (path, size, content hash) of the whole scratch root is taken before and after every request; every created, modified or deleted path (except the server's own bookkeeping files) must lie under data_dir/<owner>/; no file of database 'x' (main, recovery log, backup, audit) may be changed by a request on another name; a rejected request changes nothing; for plain names additionally, after every request every file under a user's directory belongs to a database that user currently has (nothing is left behind by rename, ownership transfer through the admin rename, or delete). evaluations = requests. Non-trivial: the name contains a separator, dot segment, leading dot, reserved name or suffix and the server answered 2xx or changed the file system. Pass B repeats the campaign with names restricted to plain pieces (no separator, dot, reserved name or suffix), where every failure is a violation. Distinct = hash of the case.".into();
     let cases = ctx.tier.pick(120, 2500);
     replay_saved::<NameCase, _>(ctx, "c26-names", c26_case);
     run_campaign(ctx, CampaignCfg { name: "c26-names", cases, max_shrink_iters: 40, max_restarts: 2 }, name_case, c26_case);
